@@ -83,6 +83,14 @@ Section MachineInv.
       + rewrite ost_pre. apply IHrs; [apply okk_done | exact Hs].
       + rewrite ost_pre. apply Hrest; assumption.
       + exact Hs.
+    - (* Call: a sequence used as a plain executable *)
+      intros ms rest Hrest k Hk x s Hs. cbn [machine].
+      destruct (match_loop E ms s) as [tm v]. destruct v.
+      + pose proof (IHrs done okk_done x s Hs) as H1.
+        destruct (machine E rs done s) as [[t s'] err]. unfold ost in H1. cbn [fst snd] in H1.
+        destruct err; [exact H1|]. rewrite ost_pre. apply Hrest; assumption.
+      + rewrite ost_pre. apply Hrest; assumption.
+      + exact Hs.
   Qed.
 
   Lemma run_seq_ok prog x s : I x s -> I x (ost (run_seq E prog s)).
